@@ -51,7 +51,9 @@ manifest = {
     "checks": checks,
     "notes": "Static analysis only. Each check decides named structural clauses (necessary conditions) of its property, "
     "not the numerical behaviour; see level_note per check and DESIGN.md. Exit 2 + 'ANALYSIS-ERROR' means an anchor "
-    "vanished or the checker's self-test failed - never a verdict. fix: commits in /repo: " + ", ".join(FIX_COMMITS),
+    "vanished, the checker's self-test failed, an unmet obligation sits behind dynamic dispatch (UNDECIDED), or (thorough tier) "
+    "the verdict changed on one of 17 behaviour-preserving rewrites of the tree - never a verdict. thorough = quick + engine unit "
+    "tests + mutant/benign corpus + metamorphic pass (DESIGN 11.10). fix: commits in /repo: " + ", ".join(FIX_COMMITS),
     "not_applicable": [{"property_id": k, "reason": v} for k, v in sorted(NOT_APPLICABLE.items())],
 }
 out = os.path.join(HERE, "MANIFEST.json")
